@@ -142,10 +142,8 @@ class ForcePlatformsCalibrationDataBlock(Block):
             raise TypeError("platform must be of type ForcePlatform")
 
         if channel is None:
-            if len(self._platformMap) == 0:
-                next_channel = 0
-            else:
-                next_channel = max(self._platformMap) + 1
+            # (the map is stored as 16 bit integers)
+            next_channel = i16.free_channel(self._platformMap)
             self._platformMap.append(next_channel)
         else:
             if channel in self._platformMap:
